@@ -701,6 +701,7 @@ class Prov:
         self.facts = facts
         self.max_depth = max_depth
         self._memo = {}
+        self._promoted = {}
 
     def of_operand(self, fn, op, path=(), depth=0):
         if op["k"] in ("copy", "move"):
@@ -710,6 +711,16 @@ class Prov:
                 return {Origin("const", "fn:" + op["fn"], path)}
             if "static" in op:
                 return {Origin("static", op["static"], path)}
+            m = re.search(r"::promoted\[(\d+)\]$", op.get("repr", ""))
+            if m and int(m.group(1)) < len(fn.j.get("promoted", [])):
+                pj = fn.j["promoted"][int(m.group(1))]
+                key = "%s::promoted[%s]" % (fn.path, m.group(1))
+                pf = self._promoted.get(key)
+                if pf is None:
+                    pf = Fn({"path": key, "kind": "Promoted", "blocks": pj["blocks"], "locals": pj["locals"],
+                             "arg_count": 0, "span": fn.span, "names": []}, fn.crate)
+                    self._promoted[key] = pf
+                return self.of_local(pf, 0, path, depth)
             return {Origin("const", op.get("repr", "?"), path)}
         return {Origin("unknown", op.get("repr", "?"), path)}
 
@@ -1111,6 +1122,13 @@ def root_local(fn, op, max_steps=12):
         if 1 <= l <= fn.arg_count:
             break
         sd = fn.single_def(l)
+        if sd is not None and sd[1] == "term" and sd[2]["args"] and sd[2]["args"][0]["k"] in ("copy", "move") and re.search(
+                r"Deref(Mut)?>?::deref(_mut)?$|::as_(mut_)?slice$|Index(Mut)?(<.*>)?>?::index(_mut)?$|Option::<T>::as_(ref|mut)$|Pin::<Ptr>::(as_mut|get_mut)$",
+                sd[2]["callee"]):
+            src = sd[2]["args"][0]
+            flds = list(fields_of(src["p"])) + flds
+            l = src["l"]
+            continue
         if sd is None or sd[1] == "term" or sd[2]["k"] != "assign":
             break
         rv = sd[2]["rv"]
